@@ -10,13 +10,15 @@ pub fn generate(_a: &Args) -> i32 {
     2
 }
 
-fn load_expected(p: &Path) -> Option<(Model, Vec<Vec<u8>>)> {
+fn load_expected(p: &Path) -> Option<(Model, Vec<Vec<u8>>, String)> {
     let t = std::fs::read_to_string(p).ok()?;
     let mut m = Model::new();
     let mut absent = Vec::new();
+    let mut name = "m".to_string();
     for l in t.lines() {
         let p: Vec<&str> = l.split(' ').collect();
         match p[0] {
+            "name" => name = p.get(1).unwrap_or(&"m").to_string(),
             "kv" => {
                 m.insert(unhex(p.get(1)?)?, unhex(p.get(2).unwrap_or(&""))?);
             }
@@ -24,23 +26,23 @@ fn load_expected(p: &Path) -> Option<(Model, Vec<Vec<u8>>)> {
             _ => {}
         }
     }
-    Some((m, absent))
+    Some((m, absent, name))
 }
 
 /// copy a golden image into a scratch directory (re-inflating the sparse default table)
-fn restore(golden: &Path, to: &Path) -> std::io::Result<()> {
+fn restore(golden: &Path, to: &Path, name: &str) -> std::io::Result<()> {
     let _ = std::fs::remove_dir_all(to);
     std::fs::create_dir_all(to)?;
-    for f in ["m.key", "m.val", "m.htx"] {
-        if golden.join(f).exists() {
-            std::fs::copy(golden.join(f), to.join(f))?;
+    for f in [format!("{name}.key"), format!("{name}.val"), format!("{name}.htx")] {
+        if golden.join(&f).exists() {
+            std::fs::copy(golden.join(&f), to.join(&f))?;
         }
     }
-    let sp = golden.join("m.htx.sparse");
+    let sp = golden.join(format!("{name}.htx.sparse"));
     if sp.exists() {
         use std::io::{Seek, SeekFrom, Write};
         let t = std::fs::read_to_string(sp)?;
-        let mut f = std::fs::File::create(to.join("m.htx"))?;
+        let mut f = std::fs::File::create(to.join(format!("{name}.htx")))?;
         for l in t.lines() {
             let p: Vec<&str> = l.split(' ').collect();
             match p[0] {
@@ -58,16 +60,17 @@ fn restore(golden: &Path, to: &Path) -> std::io::Result<()> {
 
 fn golden_case<K: Kt>(a: &Args, gdir: &Path, ctx: &mut Ctx, rng: &mut Rng, ed: &Edges) -> Option<(Stop, Option<History>)> {
     let name = gdir.file_name().unwrap().to_string_lossy().to_string();
-    let Some((expected, absent)) = load_expected(&gdir.join("expected.txt")) else {
+    let Some((expected, absent, map_name)) = load_expected(&gdir.join("expected.txt")) else {
         return Some((Stop::Harness(format!("cannot load expected contents of {name}")), None));
     };
+    let map_name = map_name.as_str();
     let dir = a.scratch.join("c12");
-    if let Err(e) = restore(gdir, &dir) {
+    if let Err(e) = restore(gdir, &dir, map_name) {
         return Some((Stop::Harness(format!("cannot restore {name}: {e}")), None));
     }
     let viol = |ctx: &Ctx, msg: String| -> Stop { ctx.classify(finding(&["C12"], "golden", 0, format!("golden image {name}: {msg}"))) };
     // (1) the independent decoder reads the released format: placement from key bytes and table size only
-    let img = match Image::read(&dir, "m") {
+    let img = match Image::read(&dir, map_name) {
         Ok(i) => i,
         Err(e) => return Some((Stop::Harness(e.to_string()), None)),
     };
@@ -80,7 +83,7 @@ fn golden_case<K: Kt>(a: &Args, gdir: &Path, ctx: &mut Ctx, rng: &mut Rng, ed: &
     // (2) the current build opens it with identical contents
     let mut keys: Vec<Vec<u8>> = expected.keys().cloned().collect();
     keys.extend(absent.iter().cloned());
-    let mut s = Session::<K> { dir: dir.clone(), name: "m".into(), db: None, map: None, extra: vec![], model: expected.clone(), n_buckets: 0, budget: crate::session::STEP_BUDGET_BASE, updates_since_sync: 0, last_decoded: None, peak_live: expected.len() + dec.keyf.slots.len() };
+    let mut s = Session::<K>::attach(&dir, map_name, expected.clone(), expected.len() + dec.keyf.slots.len());
     // creation parameters differ from what the image was made with: must be ignored
     let cfg = Cfg { buckets: Buckets::Size(*rng.pick(&[1u64, 16, 1024])), key: Cfg::random_buf(rng), val: Cfg::random_buf(rng), htx: Cfg::random_buf(rng) };
     if let Err(e) = s.open(&cfg) {
@@ -103,7 +106,7 @@ fn golden_case<K: Kt>(a: &Args, gdir: &Path, ctx: &mut Ctx, rng: &mut Rng, ed: &
     ctx.count("golden.opened", 1);
     // read-only so far: closing must leave the released files byte-for-byte unchanged
     s.close();
-    if let Ok(after) = Image::read(&dir, "m") {
+    if let Ok(after) = Image::read(&dir, map_name) {
         if let Some(d) = img.diff(&after) {
             return Some((viol(ctx, format!("opening and reading it rewrote the files: {d}")), None));
         }
@@ -130,7 +133,7 @@ fn golden_case<K: Kt>(a: &Args, gdir: &Path, ctx: &mut Ctx, rng: &mut Rng, ed: &
     s.close();
     ctx.count("golden.followup_calls", r.calls as u64);
     ctx.drain_notes();
-    if let Ok(i2) = Image::read(&dir, "m") {
+    if let Ok(i2) = Image::read(&dir, map_name) {
         if i2.htx.len() < 4_000_000 {
             let d = i2.digest();
             ctx.digests.insert(d);
